@@ -16,13 +16,15 @@ Ids6 == << <<0,0,0,0,0,0>>,   \* 1  cpl 0
 Peers8 == {1, 2, 5, 6, 7, 8, 9, 10}
 Peers8k3 == {1, 2, 3, 5, 6, 7, 8, 9}
 Peers10 == 1..10
+\* peers 2 (capacity class cpl 3), 7 (cpl 4) and 8 (cpl 5, moves when the table unfolds) re-announce from a second address
+Addrs2 == [p \in 1..10 |-> IF p \in {2, 7, 8} THEN {1, 2} ELSE {1}]
 TargetSeq == <<1, 2, 3, 4, 5, 6, 7, 8, 9, 10>>
 CountSeq == <<1, 2, 3, 5>>
 Targets10 == {TargetSeq[i] : i \in DOMAIN TargetSeq}
 Counts4 == {CountSeq[i] : i \in DOMAIN CountSeq}
 
 \* the State record is the VIEW (buckets, res); NearestPeers edges are self-loops carrying the answer in act.out
-State == [buckets |-> buckets, res |-> res]
+State == [buckets |-> buckets, addr |-> addr, res |-> res]
 Edge == PrintT(<<"EDGE", ToJson([from |-> State, act |-> act', to |-> State'])>>)
 InitOut == (TLCGet("level") = 1) => PrintT(<<"INIT", ToJson(State)>>)
 \* behaviours for the simulation mode: one ROW per finished behaviour is not needed, edges are printed as they are taken
